@@ -28,7 +28,11 @@ JEq(r, j) ==
 
 TraceInit == /\ tid \in 1 .. Len(Traces) /\ l = 1 /\ Init /\ TLCSet(tid, 1)
 
-Event(ev) ==
+\* a batch on which the user's aggregation raised: the exception reached the emitter, nothing was emitted, the state is what it
+\* was (so every later step is compared with a run that never saw the batch)
+Rejected(ev) == ev.raised /\ ~ev.emitted_on_failure /\ UNCHANGED vars
+
+Accepted(ev) ==
     LET raw == RowsOf(ev.raw)
         b == PreOf(raw)
         s == Step(acc, b)
@@ -43,6 +47,8 @@ Event(ev) ==
        /\ IF cut THEN LET sB == Step(accB, b) IN accB' = sB[1] /\ outB' = sB[2] /\ JEq(sB[2], ev.outB)
           ELSE UNCHANGED <<accB, outB>>
        /\ UNCHANGED cut
+
+Event(ev) == IF "fails" \in DOMAIN ev THEN Rejected(ev) ELSE Accepted(ev)
 
 TraceNext ==
     \/ /\ l <= Len(T) /\ ~(TR.cut > 0 /\ nb = TR.cut /\ ~cut)
